@@ -45,6 +45,7 @@ type c20Case struct {
 	E     map[string]string `json:"e,omitempty"`
 	C     int               `json:"c,omitempty"`
 	Perm  []int             `json:"perm,omitempty"` // order of the flags on the command line (a permutation of the flag groups)
+	Over  [][2]string       `json:"over,omitempty"` // overridden occurrences {flag, key=value} of -s/-v/-e keys: wherever they land, the last occurrence of a key carries the value of S/V/E
 }
 
 var c20CLI = reg("C20", "c20-cli", checkC20)
@@ -109,20 +110,52 @@ func (c *c20Case) argv() []string {
 	for _, k := range sortedKeys(c.E) {
 		add("-e", k+"="+c.E[k])
 	}
+	for _, o := range c.Over {
+		add(o[0], o[1])
+	}
 	// the flags in the drawn order (indices beyond the groups are ignored,
 	// groups not named keep their place at the end)
-	var a []string
+	var seq [][]string
 	used := make([]bool, len(groups))
 	for _, i := range c.Perm {
 		if i >= 0 && i < len(groups) && !used[i] {
 			used[i] = true
-			a = append(a, groups[i]...)
+			seq = append(seq, groups[i])
 		}
 	}
 	for i, g := range groups {
 		if !used[i] {
-			a = append(a, g...)
+			seq = append(seq, g)
 		}
+	}
+	// a repeated -s/-v/-e key: the command keeps the last value given, so the
+	// last occurrence gets the value of S/V/E and an earlier one the other
+	real := map[string]string{}
+	for k, v := range c.S {
+		real["-s "+k] = k + "=" + v
+	}
+	for k, v := range c.V {
+		real["-v "+k] = k + "=" + v
+	}
+	for k, v := range c.E {
+		real["-e "+k] = k + "=" + v
+	}
+	last := map[string]int{}
+	for i, g := range seq {
+		if len(g) == 2 && (g[0] == "-s" || g[0] == "-v" || g[0] == "-e") {
+			last[g[0]+" "+strings.SplitN(g[1], "=", 2)[0]] = i
+		}
+	}
+	var a []string
+	for i, g := range seq {
+		if len(g) == 2 && (g[0] == "-s" || g[0] == "-v" || g[0] == "-e") {
+			id := g[0] + " " + strings.SplitN(g[1], "=", 2)[0]
+			if r, ok := real[id]; ok && last[id] != i && g[1] == r {
+				// the real value stands before an overridden one: swap them
+				g, seq[last[id]] = seq[last[id]], g
+			}
+		}
+		a = append(a, g...)
 	}
 	return append(a, c.Args...)
 }
@@ -733,9 +766,22 @@ func TestC20(t *testing.T) {
 			}
 			st.Class("argument spelled unclean")
 		}
+		// -s/-v/-e keys given more than once: the last one counts (a prefix
+		// rebound after a -v that uses it, a variable given twice around its -s)
+		if rapid.IntRange(0, 2).Draw(t, "repeatFlags") == 0 {
+			pool := [][2]string{{"-s", "x=urn:y"}, {"-s", "y=urn:x"}, {"-s", "x=urn:other"}, {"-v", "x:nv=overridden"}, {"-v", "val=overridden"}, {"-v", "val="}, {"-s", "x="}}
+			for k := range c.E {
+				pool = append(pool, [2]string{"-e", k + "=overridden"})
+			}
+			sort.Slice(pool, func(i, j int) bool { return pool[i][0]+pool[i][1] < pool[j][0]+pool[j][1] })
+			for n := rapid.IntRange(1, 3).Draw(t, "repeats"); n > 0; n-- {
+				c.Over = append(c.Over, pool[rapid.IntRange(0, len(pool)-1).Draw(t, "repeat")])
+			}
+			st.Class("a -s/-v/-e key given more than once")
+		}
 		// the flags in any order
-		if rapid.Bool().Draw(t, "shuffleFlags") {
-			c.Perm = rapid.Permutation([]int{0, 1, 2, 3, 4, 5, 6, 7, 8, 9, 10, 11, 12, 13}).Draw(t, "flagOrder")
+		if rapid.Bool().Draw(t, "shuffleFlags") || len(c.Over) > 0 {
+			c.Perm = rapid.Permutation([]int{0, 1, 2, 3, 4, 5, 6, 7, 8, 9, 10, 11, 12, 13, 14, 15, 16, 17}).Draw(t, "flagOrder")
 			st.Class("flags shuffled")
 		}
 		st.Class(fmt.Sprintf("flags a=%v m=%v n=%v r=%v", c.A, c.M, c.N, c.R))
